@@ -146,6 +146,37 @@ def option_and_then(I, w, ci, args):
     return out
 
 
+def option_filter(I, w, ci, args):
+    """Option::filter(self, pred): Some(x) if pred(&x) else None; a predicate over symbolic quantities forks with its facts"""
+    out = []
+    for v in I.split_value(args[0], OPTION):
+        if v[0] != 'adt':
+            return None
+        if v[2] == 0:
+            out.append((w, none()))
+            continue
+        x = v[3][0]
+        r = I.call_closure(w, ci.depth, args[1], [('ref', ('const', x))])
+        if r is None:
+            return None
+        for w2, rv in r:
+            if rv == TRUE:
+                out.append((w2, some(x)))
+            elif rv == FALSE:
+                out.append((w2, none()))
+            elif rv[0] == 'symcmp' and I.rule is not None and hasattr(I.rule, 'on_symbranch'):
+                wt = I.rule.on_symbranch(I, w2, rv, True)
+                wf = I.rule.on_symbranch(I, w2, rv, False)
+                if wt is not None:
+                    out.append((wt, some(x)))
+                if wf is not None:
+                    out.append((wf, none()))
+            else:
+                out.append((w2, some(x)))
+                out.append((w2, none()))
+    return out
+
+
 def option_or(I, w, ci, args):
     out = []
     for v in I.split_value(args[0], OPTION):
@@ -523,6 +554,7 @@ MODELS = {
     'core::option::Option::as_ref': option_as_mut,
     'core::option::Option::map': option_map,
     'core::option::Option::unwrap_or': option_unwrap_or,
+    'core::option::Option::filter': option_filter,
     'core::option::Option::map_or': option_map_or,
     'core::option::Option::map_or_else': option_map_or_else,
     'core::option::Option::unwrap_or_else': option_unwrap_or_else,
@@ -685,14 +717,64 @@ MODELS['core::str::<impl str>::get_unchecked'] = cstr_get
 MODELS['core::str::<impl str>::starts_with'] = cstr_starts_with
 
 
+def _known_array(I, w, a):
+    """items of an array value whose every element is known (`&[x, y, z]`), else None"""
+    window = None
+    for _ in range(3):
+        if a[0] == 'ref':
+            a = I.read(w, a[1])
+        elif a[0] == 'sliceref':
+            st, ln = int_singleton(a[2]) if is_int(a[2]) else None, int_singleton(a[3]) if is_int(a[3]) else None
+            if st is None or ln is None:
+                return None
+            window = (st, ln)
+            a = I.read(w, a[1])
+    if a[0] != 'arr' or not a[1]:
+        return None
+    idx = [i for i, _ in a[1]]
+    if idx != list(range(len(idx))):
+        return None
+    items = tuple(x for _, x in a[1])
+    if window is not None:
+        if window[0] + window[1] > len(items):
+            return None
+        items = items[window[0]:window[0] + window[1]]
+    return items
+
+
 def into_iter(I, w, ci, args):
     # `impl<I: Iterator> IntoIterator for I`: an iterator converts into itself
     if ci.nresolved == '<I as core::iter::traits::collect::IntoIterator>::into_iter':
         return [(w, args[0])]
+    items = _known_array(I, w, args[0]) if args else None
+    if items is not None:
+        # iteration over a literal array / slice of known elements (`for seq in &[a, b]`): a finite, ordered stream
+        return [(w, ('citer', items))]
     return None
 
 
+def slice_iter_known(I, w, ci, args):
+    items = _known_array(I, w, args[0]) if args else None
+    if items is not None:
+        return [(w, ('citer', items))]
+    return None
+
+
+def iter_next_known(I, w, ci, args):
+    if not args or args[0][0] != 'ref':
+        return None
+    v = I.read(w, args[0][1])
+    if v[0] != 'citer':
+        return None
+    if not v[1]:
+        return [(w, none())]
+    w2 = I.write(w, args[0][1], ('citer', v[1][1:]))
+    return [(w2, some(('ref', ('const', v[1][0]))))]
+
+
 MODELS['core::iter::traits::collect::IntoIterator::into_iter'] = into_iter
+MODELS['core::slice::<impl [T]>::iter'] = slice_iter_known
+MODELS['core::iter::traits::iterator::Iterator::next'] = iter_next_known
 
 
 def _clone(I, w, ci, args):
